@@ -3,7 +3,12 @@
 //   units/xrefchain  filter `c02_`  -> pdf/tests/verif_e2e_c02.rs      units/scan  filter `c17_`  -> pdf/tests/verif_e2e_c17.rs
 //   units/updater    filter `c09_`  -> pdf/tests/verif_e2e_c09.rs
 // Test functions named `candidate_*` are NOT registered (they do not start with one of the three filters): they hold inputs that
-// fail on /repo HEAD and are written up under units/xrefchain/findings/.
+// fail on /repo HEAD (6c18973, aebe012) and are written up as candidate findings:
+//   candidate_hybrid_xrefstm_objects_are_found            units/xrefchain/findings/hybrid_xrefstm_ignored.md
+//   candidate_save_of_a_file_with_undefined_numbers        units/updater/findings/save_fails_on_undefined_entries.md
+//   candidate_failed_create_leaves_the_document_savable    units/updater/findings/failed_create_blocks_save.md
+// Registered: c02_newest_mention_wins_end_to_end, c02_generator_selfcheck | c17_prefixed_file_reads_identically |
+//   c09_generated_files_write_save_reload, c09_corpus_files_write_save_reload, c09_failed_save_is_retried
 //
 // GENERATOR (hand-written bytes, no crate writer; `build`): a base body of 6 objects
 //     1 catalog, 2 page tree, 3 page (/Rotate r), 4 content stream, 5 integer, 6 string
@@ -16,7 +21,8 @@
 // every section (base and updates) written in one of the FORMATS
 //     classic table + trailer, maximal subsections | classic, every entry its own subsection |
 //     cross-reference stream /W [1 2 1] one /Index run per maximal block | /W [1 3 2] every entry its own /Index run |
-//     /W [1 2 1] split | /W [1 3 2] maximal blocks            (the base section in xref-stream form optionally with 5, 6 in an object stream)
+//     /W [1 2 1] split | /W [1 3 2] maximal blocks | /W [0 2 1] (no type field; update sections with in-use, uncompressed entries only)
+//     (the base section in xref-stream form optionally with 5, 6 in an object stream, or with /Index omitted)
 // chained with /Prev; /Size = highest number mentioned so far + 1; every section has its own /ID so the trailer can be told apart.
 // The EXPECTED value of every object number is computed by the test itself (`Built::expect`): sections oldest to newest, the newest
 // section that mentions a number wins; a free entry -> missing; never mentioned or >= /Size -> missing.
@@ -282,7 +288,10 @@ fn build(sections: &[Section]) -> Built {
 #[derive(Clone, Copy, Debug, PartialEq)]
 enum Kind { Redef, Free5, Reuse5, AddGap, Pack }
 
-const FORMATS: [(Fmt, bool); 6] = [(Fmt::Classic, false), (Fmt::Classic, true), (Fmt::XStm(1, 2, 1), false), (Fmt::XStm(1, 3, 2), true), (Fmt::XStm(1, 2, 1), true), (Fmt::XStm(1, 3, 2), false)];
+/// the last one (/W [0 2 1]: no type field, every entry is of type 1, ISO 32000-1 table 18) only for update sections whose entries are all
+/// in use and not compressed (Redef, Reuse5, AddGap)
+const FORMATS: [(Fmt, bool); 7] = [(Fmt::Classic, false), (Fmt::Classic, true), (Fmt::XStm(1, 2, 1), false), (Fmt::XStm(1, 3, 2), true), (Fmt::XStm(1, 2, 1), true), (Fmt::XStm(1, 3, 2), false),
+    (Fmt::XStm(0, 2, 1), false)];
 
 fn content(k: usize) -> V { let s = format!("q {} 0 0 1 0 0 cm Q\n", k + 1).into_bytes(); V::Stream(vec![], s.clone(), s) }
 fn page(rot: i32) -> V {
@@ -336,6 +345,7 @@ fn universe(formats: &[(Fmt, bool)], f: &mut dyn FnMut(&Built)) -> usize {
         'outer: loop {
             let fm: Vec<(Fmt, bool)> = choice.iter().map(|&i| formats[i]).collect();
             let valid = seq.iter().enumerate().all(|(i, k)| *k != Kind::Pack || matches!(fm[i + 1].0, Fmt::XStm(..)));
+            let valid = valid && !matches!(fm[0].0, Fmt::XStm(0, ..)) && seq.iter().enumerate().all(|(i, k)| !matches!(fm[i + 1].0, Fmt::XStm(0, ..)) || matches!(k, Kind::Redef | Kind::Reuse5 | Kind::AddGap));
             if valid {
                 let base_variants: &[(bool, bool)] = if matches!(fm[0].0, Fmt::XStm(..)) { &[(false, false), (true, false), (false, true)] } else { &[(false, false)] };
                 for &(base_packed, omit_index) in base_variants {
@@ -607,6 +617,7 @@ fn c17_prefixed_file_reads_identically() {
     });
     let _ = std::panic::take_hook();
     assert!((n > 300 && loads == 7 * n && saves > n / 2) || fails.n > 0, "{} files {} loads {} saves", n, loads, saves);
+    println!("{} files, {} prefixed loads, {} update+save+reload runs", n, loads, saves);
     fails.finish("C17 bounded end to end: prefix ++ file reads as file", loads);
 }
 
@@ -785,6 +796,7 @@ fn c09_generated_files_write_save_reload() {
     });
     let _ = std::panic::take_hook();
     assert!((n > 300 && runs_done > 2000 && packed_files > 50) || fails.n > 0, "{} files {} runs {} files with compressed targets", n, runs_done, packed_files);
+    println!("{} files of which {} without undefined numbers ({} with a compressed target), {} runs", n, file_no, packed_files, runs_done);
     fails.finish("C09 bounded end to end on generated files: write, save, reload", runs_done);
 }
 
@@ -837,6 +849,82 @@ fn c09_corpus_files_write_save_reload() {
     fails.finish("C09 bounded end to end on files/example.pdf and files/xelatex.pdf: write, save, reload", runs_done);
 }
 
+/// C09 "a save that fails and is retried after the offending object is replaced": a promise is left unfulfilled, so the first save
+/// fails; the promise is fulfilled, the second save must succeed and reload (written ids: last value; the rest untouched).
+fn failed_save_then_retry(bytes: &[u8], upto: u64, gens: &BTreeMap<u64, u64>, target: PlainRef, v1: usize, v2: usize) -> Result<(), String> {
+    let before = load_some(bytes, upto, gens, false)?;
+    let (mut st, mut trailer) = open_storage(bytes.to_vec())?;
+    let (p1, t1) = c09_value(v1);
+    let r = quiet(|| st.update(target, p1)).map_err(|p| format!("update PANICKED {}", p))?.map_err(|e| format!("update: {}", e))?.get_ref().get_inner();
+    if r != target { return Err(format!("update({:?}) handed back {:?}", target, r)); }
+    let promise = st.promise::<Primitive>();
+    let pid = promise.get_inner();
+    match quiet(|| st.save(&mut trailer).map(|_| ())) {
+        Ok(Err(_)) => {}
+        Ok(Ok(())) => return Err("test premise: a save with an unfulfilled promise was expected to fail".into()),
+        Err(p) => return Err(format!("first save PANICKED {}", p)),
+    }
+    // reads through the open document after the failed save
+    let got = read_one(&st.resolver(), target.id, target.gen);
+    if got != t1 { return Err(format!("after the failed save object {} reads {} expected {}", target.id, got, t1)); }
+    let (p2, t2) = c09_value(v2);
+    let r2 = quiet(|| st.fulfill(promise, p2)).map_err(|p| format!("fulfill PANICKED {}", p))?.map_err(|e| format!("fulfill: {}", e))?.get_ref().get_inner();
+    if r2 != pid { return Err(format!("fulfill of {:?} handed back {:?}", pid, r2)); }
+    match quiet(|| st.save(&mut trailer).map(|b| b.to_vec())) {
+        Ok(Ok(saved)) => {
+            if !saved.starts_with(bytes) { return Err("the previous revision is not a prefix of the output".into()); }
+            let mut gens2 = gens.clone();
+            gens2.insert(target.id, target.gen);
+            let tail = esc(&saved[bytes.len()..]);
+            let after = load_some(&saved, upto.max(pid.id + 1), &gens2, false).map_err(|e| format!("bytes of the retried save: {}   SAVED \"{}\"", e, tail))?;
+            let mut bad = Vec::new();
+            if after.objects[target.id as usize] != t1 { bad.push(format!("updated object {} reloads as {} expected {}", target.id, after.objects[target.id as usize], t1)); }
+            if after.objects[pid.id as usize] != t2 { bad.push(format!("fulfilled object {} reloads as {} expected {}", pid.id, after.objects[pid.id as usize], t2)); }
+            for id in 0..upto {
+                if id == target.id || id == pid.id || before.objects[id as usize] == "MISSING" { continue; }
+                if after.objects[id as usize] != before.objects[id as usize] { bad.push(format!("untouched object {}: {} | reloaded {}", id, before.objects[id as usize], after.objects[id as usize])); }
+            }
+            if after.pages != before.pages { bad.push(format!("page count {} | {}", before.pages, after.pages)); }
+            if bad.is_empty() { Ok(()) } else { Err(format!("{}   SAVED \"{}\"", bad.join(" | "), tail)) }
+        }
+        Ok(Err(e)) => Err(format!("the retried save fails: {}", e)),
+        Err(p) => Err(format!("the retried save PANICKED {}", p)),
+    }
+}
+
+#[test]
+fn c09_failed_save_is_retried() {
+    let _guard = ONE_AT_A_TIME.lock().unwrap_or_else(|e| e.into_inner());
+    std::panic::set_hook(Box::new(|_| {}));
+    let mut fails = Fails::new();
+    let mut runs_done = 0usize;
+    let mut k = 0usize;
+    universe(&FORMATS_3, &mut |b| {
+        if b.has_gap() { return; }   // candidate_save_of_a_file_with_undefined_numbers
+        k += 1;
+        let target = [6u64, 5, 4].iter().find_map(|n| match b.expect.get(n) { Some(X::Val(g, _)) => Some(PlainRef { id: *n, gen: *g }), _ => None }).unwrap();
+        let (v1, v2) = (k % N_VALUES, (k / N_VALUES) % N_VALUES);
+        if let Err(e) = failed_save_then_retry(&b.bytes, b.size + 3, &gens_of(b), target, v1, v2) {
+            fails.push(format!("{}: update({}, value {}), promise, save (fails), fulfill(value {}), save: {}   FILE \"{}\"", b.what, target.id, v1, v2, e, esc(&b.bytes)));
+        }
+        runs_done += 1;
+    });
+    for name in ["example.pdf", "xelatex.pdf"] {
+        let bytes = corpus(name);
+        let upto = open_storage(bytes.clone()).map(|(_, t)| t.size as u64).unwrap_or(0);
+        let target = PlainRef { id: if name == "example.pdf" { 5 } else { 2 }, gen: 0 };   // a font dictionary / the (compressed) information dictionary
+        for v1 in 0..N_VALUES { for v2 in 0..N_VALUES {
+            if let Err(e) = failed_save_then_retry(&bytes, upto, &BTreeMap::new(), target, v1, v2) {
+                fails.push(format!("files/{}: update({}, value {}), promise, save (fails), fulfill(value {}), save: {}", name, target.id, v1, v2, e));
+            }
+            runs_done += 1;
+        } }
+    }
+    let _ = std::panic::take_hook();
+    assert!(runs_done > 300 || fails.n > 0, "{} runs", runs_done);
+    fails.finish("C09 bounded end to end: a failed save is retried", runs_done);
+}
+
 // ------------------------------------------------------------------------------------------------ NOT registered (fail on /repo HEAD)
 /// hybrid-reference file (ISO 32000-1 7.5.8.4): a classic section whose trailer has /XRefStm; the objects 5, 6 live in an object
 /// stream that only the /XRefStm stream mentions (the classic table lists them as free).
@@ -880,4 +968,20 @@ fn candidate_save_of_a_file_with_undefined_numbers() {
     }
     let _ = std::panic::take_hook();
     fails.finish("save of a file with undefined object numbers below /Size", n);
+}
+
+/// a `create` whose value cannot be written (a stream whose info is not a dictionary) fails; the document must stay savable
+#[test]
+fn candidate_failed_create_leaves_the_document_savable() {
+    let _guard = ONE_AT_A_TIME.lock().unwrap_or_else(|e| e.into_inner());
+    let b = build(&[Section { fmt: Fmt::Classic, split: false, entries: base_entries(false), hybrid: false, omit_index: false }]);
+    let (mut st, mut trailer) = open_storage(b.bytes.clone()).unwrap();
+    let bad = st.create(Stream::new(5i32, b"x".to_vec()));
+    assert!(bad.is_err(), "test premise: a stream whose info is an integer cannot be written");
+    let r = st.update(PlainRef { id: 5, gen: 0 }, Primitive::Integer(42)).unwrap().get_ref().get_inner();
+    assert_eq!(r, PlainRef { id: 5, gen: 0 });
+    if let Err(e) = st.save(&mut trailer) { panic!("after a failed create every save fails: {}", e); }
+    let saved = st.into_inner();
+    let again = load_some(&saved, b.size + 3, &gens_of(&b), false).unwrap();
+    assert_eq!(again.objects[5], "i:42");
 }
